@@ -49,7 +49,7 @@ Proof. induction a as [|x a IH]; simpl; [reflexivity|]. rewrite event_eqb_refl. 
 Lemma is_prefix_refl a : is_prefix a a = true.
 Proof. rewrite <- (app_nil_r a) at 2. apply is_prefix_app. Qed.
 
-(* [inversion]/[injection] normalise DF-fuelled subterms; peel [Some] with congruence instead *)
+(* [inversion]/[injection] normalise fuelled subterms; peel [Some] with congruence instead *)
 Ltac some_eq E := match type of E with Some ?a = Some ?b => let X := fresh "X" in assert (X : a = b) by congruence; rewrite <- X end.
 
 Definition extends (a b : list event) : Prop := exists l, b = a ++ l.
